@@ -564,6 +564,7 @@ inline int harness_main(const char* property, int argc, char** argv) {
                 return 1;
             }
             printf("REPLAY-PASS property=%s subcheck=%s%s\n", property, sname.c_str(), o.discard ? " (premise not met)" : "");
+            for (auto& l : o.labels) printf("  label: %s\n", l.c_str());
             return 0;
         }
         fprintf(stderr, "replay: unknown subcheck %s\n", sname.c_str());
